@@ -314,20 +314,34 @@ Theorem C01_source_pure_row : forall (exp2 : Q -> Q) i k purity hapx female buil
   abs_of c == a /\ cn_of c = round_he a /\ ratio_of c = None.
 Proof. exact Proofs.FnCallPureRow.source_pure_call_row. Qed.
 
-(* ---- [loop ties e1] source tie of the purity-adjusted row (Gen/FnCallClonalRow.v): the function absolute_dataframe
-   hands to `df.apply(..., axis=1)` (fn_dataframe_row), the column absolute_clonal returns (fn_clonal_column) and do_call's
-   `.clip(lower=0)` (fn_clonal_clip), composed on the (reference, expect) copies of the row's class, ARE the `absolutes`
-   of call_row on the purity-adjusted path; cn is its half-to-even rounding, the rewritten ratio `rescaled` of it *)
+(* ---- [loop ties e1] source tie of the purity-adjusted row (Gen/FnCallClonalRow.v): do_call's `.clip(lower=0)`
+   (fn_clonal_clip) of absolute_clonal (fn_absolute_clonal, WHOLE: the call of absolute_dataframe and the column handed
+   back) of absolute_dataframe (fn_dataframe_whole: the call of get_as_dframe_and_set_reference_and_expect_copies and the
+   function handed to `df.apply(..., axis=1)`), the callee's table read through its columns -- log2 the row's v, reference /
+   expect the r / x of ref_expect on the row's class, as functions of the arguments the call passes -- IS the `absolutes` of
+   call_row on the purity-adjusted path; cn is its half-to-even rounding, the rewritten ratio `rescaled` of it *)
 From CNV Require Gen.FnCallClonalRow Proofs.FnCallClonalRow.
-Theorem C01_source_clonal_row : forall (exp2 : Q -> Q) k purity p hapx female build first chrom lo hi v,
+Theorem C01_source_clonal_row : forall (exp2 : Q -> Q) cn b k purity p hapx female build first chrom lo hi v,
   use_purity purity = Some p ->
   let cl := row_class build first chrom lo hi in
-  let '(r, x) := ref_expect k hapx female cl in
   let a := Gen.FnCallClonalRow.fn_clonal_clip
-             (Gen.FnCallClonalRow.fn_clonal_column (Gen.FnCallClonalRow.fn_dataframe_row exp2 purity v r x)) in
+             (Gen.FnCallClonalRow.fn_absolute_clonal cn k purity hapx b female
+                (fun cn' k' purity' hapx' b' female' =>
+                   Gen.FnCallClonalRow.fn_dataframe_whole exp2 cn' k' purity' hapx' b' female'
+                     (fun _ _ _ _ _ => v)
+                     (fun _ k2 hapx2 _ female2 => fst (ref_expect k2 hapx2 female2 cl))
+                     (fun _ k2 hapx2 _ female2 => snd (ref_expect k2 hapx2 female2 cl)))) in
   let o := call_row k purity hapx female build first (chrom, lo, hi, exp2 v) in
   abs_of o == a /\ cn_of o = round_he a /\ ratio_of o = Some (rescaled a k (shifted hapx cl)).
 Proof. exact Proofs.FnCallClonalRow.source_clonal_call_row. Qed.
+
+(* as written: which argument absolute_clonal and absolute_dataframe pass where, which column feeds which argument *)
+Theorem C01_source_clonal_calls : forall (exp2 : Q -> Q) cn k purity hapx b female
+    (A : Z -> Z -> option Q -> bool -> Z -> bool -> Q) (L : Z -> Z -> bool -> Z -> bool -> Q) (R E : Z -> Z -> bool -> Z -> bool -> Z),
+  Gen.FnCallClonalRow.fn_absolute_clonal cn k purity hapx b female A = A cn k purity hapx b female /\
+  Gen.FnCallClonalRow.fn_dataframe_whole exp2 cn k purity hapx b female L R E
+  = Gen.FnCallClonalRow.fn_dataframe_row exp2 purity (L cn k hapx b female) (R cn k hapx b female) (E cn k hapx b female).
+Proof. exact Proofs.FnCallClonalRow.source_clonal_calls. Qed.
 
 (* the row function of df.apply alone, on both sides of `if purity and purity < 1.0` *)
 Theorem C01_source_dataframe_row : forall (exp2 : Q -> Q) purity v r x,
